@@ -171,6 +171,18 @@ def run_c14(tier, seed):
             oc.nontrivial.add(h)
             if len(oc.samples) < 3 and len(oc.nontrivial) % 151 == 1:
                 oc.samples.append({'text': text[:1200]})
+    # model: reading the serialisation back (lexer + tree builder) against ElementTree's own parser
+    presps = lean.run_batch([{'op': 'parse', 'text': text} for _, text in states])
+    for (tree, text), r in zip(states, presps):
+        et = TJ.parse(text)
+        if r['doc'] is None:
+            oc.count('info:model-lexer-rejects')
+            oc.disagreements.append({'kind': 'parse', 'what': 'the model lexer rejects a serialisation ElementTree reads', 'impl': text[:1500]})
+        elif r['doc'] != et:
+            oc.disagreements.append({'kind': 'parse', 'what': 'the model reads the serialisation differently from ElementTree',
+                                     'impl': TJ.to_text(et)[:1500], 'model': TJ.to_text(r['doc'])[:1500], 'text': text[:1500]})
+        else:
+            oc.count('model-reads-like-ElementTree')
     oc.rule = ('random rich documents (nested metadata, attributes, mixed text and tails, Unicode, markup-significant characters, '
                'character references incl. &#13;) and every state of live random histories (all 24 classes incl. roReplace, '
                'roMetadataReplace, roStorySend, roDelete); distinct by serialised text')
